@@ -33,6 +33,26 @@ func cnfCases(env *core.Env, count int, cert func(i int) bool) []core.Case {
 				clauses = gen.RandCNF(r, nv, m, 4, true)
 			}
 		}
+		if len(clauses) > 0 && r.Intn(3) == 0 { // a formula is a multiset: some clauses (unit clauses first) stated several times
+			if r.Intn(2) == 0 { // make sure there is a fact to repeat
+				clauses = append(clauses, []int{gen.RandLit(r, nv)})
+			}
+			for k := 0; k < 1+r.Intn(3); k++ {
+				c := clauses[r.Intn(len(clauses))]
+				for _, u := range clauses {
+					if len(u) == 1 && r.Intn(2) == 0 {
+						c = u
+						break
+					}
+				}
+				for x := 0; x < 1+r.Intn(3); x++ {
+					clauses = append(clauses, append([]int{}, c...))
+				}
+			}
+			if r.Intn(2) == 0 {
+				clauses = gen.Shuffle(r, clauses)
+			}
+		}
 		front := fronts[r.Intn(len(fronts))]
 		n := nv
 		if front == "slice" {
